@@ -53,3 +53,31 @@ pub struct MiniState {
     #[stack(exec)]
     pub todo: Stack<PushProgram>,
 }
+
+#[must_use]
+pub fn inverted_flag_input(b: bool) -> PushInstruction {
+    PushInstruction::push_bool(!b)
+}
+
+/// A fourth state type: the options of a stack are given in SEVERAL `#[stack(..)]` attributes on
+/// the same field (a supported form); a custom input instruction on a field whose name also has
+/// a default one (`bool` -> `PushInstruction::push_bool`), and a renamed builder method.
+#[derive(Default, Debug, Clone, PartialEq)]
+#[push_macros::push_state(builder)]
+pub struct SplitState {
+    #[stack(exec)]
+    pub exec: Stack<PushProgram>,
+    #[stack(instruction_name = crate::push_vm::verif_alt_state::inverted_flag_input)]
+    #[stack(ignore_doctests)]
+    pub bool: Stack<bool>,
+    #[stack(builder_name = number)]
+    #[stack(ignore_doctests)]
+    pub int: Stack<i64>,
+    #[stack(instruction_name = crate::push_vm::verif_alt_state::wrapped_input)]
+    #[stack(builder_name = spare, ignore_doctests)]
+    pub third: Stack<Wrapped>,
+    #[input_instructions]
+    pub inputs: HashMap<VariableName, PushInstruction>,
+    #[instruction_step_limit]
+    pub steps: usize,
+}
